@@ -4,6 +4,7 @@ open Vx
 open C17Spec
 open C17Model
 open C17TypedModel
+open C17HistModel
 open Base
 
 let parse_msg (s : string) : msg =
@@ -131,6 +132,13 @@ let pass_line id dclass rest (r : passthrough res) =
   if mc <> dclass || ms <> rest then Printf.printf "MISMATCH %s passthrough model=%s %s\n" id mc ms
   else Printf.printf "OK %s\n" id
 
+let parse_hevc_par (par : string) : hevc_par =
+  match split_on ',' par with
+  | [a; b; c; d; e; f; g; h] ->
+    { hp_ffi = bool_of a; hp_cpb = bool_of b; hp_subpic = bool_of c; hp_subpic_in_pt = bool_of d;
+      hp_au_len1 = n_of_hex e; hp_dpb_len1 = n_of_hex f; hp_du_len1 = n_of_hex g; hp_inc_len1 = n_of_hex h }
+  | _ -> failwith "bad hevc par"
+
 let typed (fields : string list) : bool =
   match fields with
   | ["T136"; id; cs; wclass; size; payload; dclass; dstr] ->
@@ -166,12 +174,43 @@ let typed (fields : string list) : bool =
   | ["P5"; id; payload; dclass; k; p; z] ->
     pass_line id dclass (k ^ "\t" ^ p ^ "\t" ^ z) (decode_unregistered (bytes_of_hex payload)); true
   | ["P1H"; id; par; payload; dclass; k; p; z] ->
-    let par = (match split_on ',' par with
-        | [a; b; c; d; e; f; g; h] ->
-          { hp_ffi = bool_of a; hp_cpb = bool_of b; hp_subpic = bool_of c; hp_subpic_in_pt = bool_of d;
-            hp_au_len1 = n_of_hex e; hp_dpb_len1 = n_of_hex f; hp_du_len1 = n_of_hex g; hp_inc_len1 = n_of_hex h }
-        | _ -> failwith "bad hevc par") in
+    let par = parse_hevc_par par in
     pass_line id dclass (k ^ "\t" ^ p ^ "\t" ^ z) (decode_pic_timing_hevc par (bytes_of_hex payload)); true
+  | [hk; id; _hist; fs; wclass; size; payload; written; dclass; dstr]
+    when hk = "H136" || hk = "H1" || hk = "H137" || hk = "H144" ->
+    (* the final value of a history: the model sees its exported field record only *)
+    let t = (match hk with
+        | "H136" -> TTimeCode (parse_clocks fs)
+        | "H1" -> TPicTiming (parse_pt fs)
+        | "H137" -> TMdcv (parse_mdcv fs)
+        | _ -> (match L.map n_of_hex (split_on ',' fs) with [a; b] -> TCll { cl_max = a; cl_avg = b } | _ -> failwith "bad cll")) in
+    let (((msize, mpl), mwritten), mdec) = typed_observe t in
+    let str (t : typed) = (match t with
+        | TTimeCode cs -> clocks_string cs
+        | TPicTiming m -> pt_string m
+        | TMdcv m -> mdcv_string m
+        | TCll c -> hex_of_n c.cl_max ^ "," ^ hex_of_n c.cl_avg) in
+    let (mdc, mds) = res_string str mdec in
+    if wclass <> "ok" then Printf.printf "MISMATCH %s Payload()/WriteSEIMessages class=%s (model: ok)\n" id wclass
+    else if hex_of_n msize <> size then Printf.printf "MISMATCH %s size model=%s (from the final exported fields)\n" id (hex_of_n msize)
+    else if hex_of_bytes mpl <> payload then Printf.printf "MISMATCH %s payload model=%s (from the final exported fields)\n" id (hex_of_bytes mpl)
+    else if hex_of_bytes mwritten <> written then Printf.printf "MISMATCH %s written model=%s\n" id (hex_of_bytes mwritten)
+    else if mdc <> dclass || mds <> dstr then Printf.printf "MISMATCH %s decode model=%s %s\n" id mdc mds
+    else Printf.printf "OK %s\n" id; true
+  | ["HP"; id; which; _hist; par; payload; dclass; fp; fz] ->
+    (* a decoded pass-through message after edits of its exported fields: payload and size unchanged *)
+    let pl = bytes_of_hex payload in
+    let r = (match which with
+        | "P4" -> decode_registered pl
+        | "P5" -> decode_unregistered pl
+        | _ -> decode_pic_timing_hevc (parse_hevc_par par) pl) in
+    let (mc, mp, mz) = (match r with
+        | Ok m -> ("ok", hex_of_bytes (pass_payload m), hex_of_n (pass_size m))
+        | Err -> ("err", "-", "-")
+        | Panic -> ("panic", "-", "-")
+        | OutOfFuel -> ("fuel", "-", "-")) in
+    if mc <> dclass || mp <> fp || mz <> fz then Printf.printf "MISMATCH %s passthrough-after-edit model=%s %s %s\n" id mc mp mz
+    else Printf.printf "OK %s\n" id; true
   | _ -> false
 
 let () =
